@@ -22,6 +22,7 @@ Line protocol
   q c=1                       queue length
   rs n=5 | conc pubs=3 n=20 cs=2 | concsub cs=2 rounds=200   run-service / concurrent-publisher / concurrent-subscriber cases
   ops: `;`-separated  s.c.e.t.g | u.c.e.t | f.c.e.fn | p.c.e.args | g.e.args | c.c | gs.e.c | gu.e.c | gsh.e.c.t
+       | sr.c.e.t.r | ur.c.e.fn.r   (light centre SubscribeWithReceiver / UnsubscribeWithReceiver, receiver r ≥ 1)
        (args `_`-separated; gs/gu = direct Subscribe/Unsubscribe(name, centre) on the exported global centre;
         gsh = direct Subscribe through a wrapper centre whose GetId() performs template t's script, i.e. between the
         global centre's list lookup and its store)
@@ -44,6 +45,8 @@ def parseOp (s : String) : Option SOp :=
   | ["c", c] => do pure (.clear (← c.toNat?))
   | ["gs", e, c] => do pure (.gsub (← e.toNat?) (← c.toNat?))
   | ["gu", e, c] => do pure (.gunsub (← e.toNat?) (← c.toNat?))
+  | ["sr", c, e, t, r] => do pure (.subr (← c.toNat?) (← e.toNat?) (← t.toNat?) (← r.toNat?))
+  | ["ur", c, e, f, r] => do pure (.unsubr (← c.toNat?) (← e.toNat?) (← f.toNat?) (← r.toNat?))
   | ["gsh", e, c, t] => do pure (.gsubh (← e.toNat?) (← c.toNat?) (← t.toNat?))
   | _ => none
 
@@ -159,6 +162,7 @@ structure MSub where
   bound : List Nat
   fn : Nat
   glob : Bool
+  recv : Nat := 0            -- light centre: receiver the listener was subscribed with (0 = none)
   fuzzy : Bool := false      -- removal by code pointer was ambiguous: may or may not still be subscribed
 
 structure MCentre where
@@ -204,6 +208,8 @@ def opName : SOp → String
   | .gsub e c => s!"gs.{e}.{c}"
   | .gunsub e c => s!"gu.{e}.{c}"
   | .gsubh e c t => s!"gsh.{e}.{c}.{t}"
+  | .subr c e t r => s!"sr.{c}.{e}.{t}.{r}"
+  | .unsubr c e f r => s!"ur.{c}.{e}.{f}.{r}"
 
 /-- effect of a completed script operation, as the API documents it; `tok` = what the implementation did -/
 def monOp (m : Mon) (op : SOp) (tok : String) : R :=
@@ -222,6 +228,8 @@ def monOp (m : Mon) (op : SOp) (tok : String) : R :=
       match m.cs[c]?, m.tm t with
       | some ct, some tm =>
         if !ct.running then viol "subscribed-on-cleared-centre" (opName op)
+        else if ct.light && !g && (m.lis c e).any (fun l => l.fn == tm.fn && !l.fuzzy) then
+          viol "callback-registered-twice" s!"{opName op}: the callback is already registered for that name"
         else
           let m := { m with used := t :: m.used, subs := m.subs ++ [{ c, e, id := t, bound := tm.bound, fn := tm.fn, glob := g && !ct.light }] }
           -- GSubscribe registers the centre when its list is not registered yet
@@ -285,6 +293,29 @@ def monOp (m : Mon) (op : SOp) (tok : String) : R :=
     if tok == "gs" then .ok { m with reg := if m.reg.contains (e, c) then m.reg else (e, c) :: m.reg, touched := (e, c) :: m.touched }
     else if tok == "bad" then .ok m else viol "trace-shape" s!"{opName op} answered {tok}"
   | .gsubh .. => viol "trace-shape" s!"{opName op} answered {tok}"
+  | .subr c e t r =>
+    match m.cs[c]?, m.tm t with
+    | some ct, some tm =>
+      -- a listener matches (receiver r, callback) when it has that callback and either no receiver or receiver r
+      let dup := (m.lis c e).filter (fun l => l.fn == tm.fn && (l.recv == 0 || l.recv == r))
+      if tok == "s+" then
+        if !ct.light || r == 0 then viol "trace-shape" s!"{opName op} answered {tok}"
+        else if !ct.running then viol "subscribed-on-cleared-centre" (opName op)
+        else if dup.any (fun l => !l.fuzzy) then
+          viol "callback-registered-twice" s!"{opName op}: the callback is already registered for that name (listener {dup.map (·.id)})"
+        else .ok { m with used := t :: m.used, subs := m.subs ++ [{ c, e, id := t, bound := tm.bound, fn := tm.fn, glob := false, recv := r }] }
+      else if tok == "s0" then
+        if !ct.running || !dup.isEmpty then .ok { m with used := t :: m.used } else viol "subscribe-refused" (opName op)
+      else if tok == "dup" || tok == "bad" then .ok m
+      else viol "trace-shape" s!"{opName op} answered {tok}"
+    | _, _ => if tok == "bad" then .ok m else viol "trace-shape" s!"{opName op} answered {tok}"
+  | .unsubr c e f r =>
+    if tok == "u" then
+      match (m.lis c e).filter (fun l => l.fn == f && (l.recv == 0 || l.recv == r)) with
+      | [l] => .ok { m with subs := m.subs.filter (fun x => !(x.id == l.id)), unsubbed := l.id :: m.unsubbed }
+      | [] => .ok m
+      | _ => .ok { m with subs := m.subs.map (fun x => if x.c == c && x.e == e && x.fn == f && (x.recv == 0 || x.recv == r) then { x with fuzzy := true } else x) }
+    else if tok == "bad" then .ok m else viol "trace-shape" s!"{opName op} answered {tok}"
   | .gunsub e c =>
     if tok == "gu" then .ok { m with reg := m.reg.filter (· != (e, c)), touched := (e, c) :: m.touched }
     else if tok == "bad" then .ok m else viol "trace-shape" s!"{opName op} answered {tok}"
